@@ -28,7 +28,7 @@ use sighook_shim::sync::atomic::{AtomicBool, Ordering};
 #[cfg(sighook_verif)]
 use sighook_shim::sync::Mutex;
 #[cfg(sighook_verif)]
-use std::sync::Arc;
+use sighook_shim::sync::Arc;
 #[cfg(not(sighook_verif))]
 use std::sync::atomic::{AtomicBool, Ordering};
 #[cfg(not(sighook_verif))]
